@@ -11,6 +11,9 @@
 (* function of m only) and the obligation on the implementation side.      *)
 (*   m     : key index -> value (0 = absent)                               *)
 (*   trace : the history of batches with the expected term / query results *)
+(* Steps: Update(batch) incl. the empty batch, Reopen, DupUpdate (a batch   *)
+(* naming one key twice: either operation may win).  Next is the plain      *)
+(* relation (exhaustive runs), NextW the weighted one for simulation.       *)
 (***************************************************************************)
 EXTENDS Integers, Sequences, FiniteSets, TLC, Json
 
@@ -54,19 +57,35 @@ Walk(S, mm, q, d, bits) ==
        IN Walk(mine, mm, q, d + 1, Append(bits, IF sib # {} THEN 1 ELSE 0))
 Query(mm, q) == Walk(Present(mm), mm, q, 0, <<>>)
 
-Batches == {f \in UNION {[S -> 0..NV] : S \in {T \in SUBSET KIdx : Cardinality(T) >= 1 /\ Cardinality(T) <= MaxBatch}} : TRUE}
+\* batches of unique keys; the EMPTY batch is a batch too (a commit with an empty diff, an event root without events)
+Batches == {f \in UNION {[S -> 0..NV] : S \in {T \in SUBSET KIdx : Cardinality(T) <= MaxBatch}} : TRUE}
+EmptyBatch == [i \in {} |-> 0]
+Apply(mm, f) == [i \in KIdx |-> IF i \in DOMAIN f THEN f[i] ELSE mm[i]]
+\* the operations of a batch in key order (the harness permutes them: batch order must not matter)
+KvOf(f) == [j \in 1..Cardinality(DOMAIN f) |->
+              LET i == CHOOSE x \in DOMAIN f : Cardinality({y \in DOMAIN f : y < x}) = j - 1
+              IN <<KeyTab[i], f[i]>>]
 
 Init == m = [i \in KIdx |-> 0] /\ trace = <<>>
 
 Update(f) ==
   /\ Len(trace) < Depth
-  /\ m' = [i \in KIdx |-> IF i \in DOMAIN f THEN f[i] ELSE m[i]]
-  /\ trace' = Append(trace, [op |-> "update",
-                             kv |-> [j \in 1..Cardinality(DOMAIN f) |->
-                                       LET i == CHOOSE x \in DOMAIN f : Cardinality({y \in DOMAIN f : y < x}) = j - 1
-                                       IN <<KeyTab[i], f[i]>>],
-                             root |-> Tree(m'),
-                             q |-> [i \in KIdx |-> Query(m', i)]])
+  /\ m' = Apply(m, f)
+  /\ trace' = Append(trace, [op |-> "update", kv |-> KvOf(f), root |-> Tree(m'), q |-> [i \in KIdx |-> Query(m', i)]])
+
+\* A batch that names key i twice, with two different values.  LIP-0039 and the statement of C10 leave open which of the two
+\* operations wins, so the step is NONDETERMINISTIC: the new map is the one in which the first, or the one in which the second
+\* wins.  The entry carries the root of the chosen branch and, as alt, the root of the other one: an implementation that takes
+\* the other branch is still a behaviour of this specification (the replayer stops following THIS history there).
+DupUpdate(f, i, w) ==
+  /\ Len(trace) < Depth /\ i \in DOMAIN f /\ w # f[i]
+  /\ \E keep \in BOOLEAN :
+       LET g == [f EXCEPT ![i] = w]
+           win == IF keep THEN f ELSE g
+           lose == IF keep THEN g ELSE f
+       IN /\ m' = Apply(m, win)
+          /\ trace' = Append(trace, [op |-> "dup", kv |-> Append(KvOf(f), <<KeyTab[i], w>>), root |-> Tree(m'),
+                                     q |-> [x \in KIdx |-> Query(m', x)], alt |-> Tree(Apply(m, lose))])
 
 \* the trie is dropped and reopened from its stored nodes at its latest root
 Reopen ==
@@ -76,6 +95,22 @@ Reopen ==
 
 Next == (\E f \in Batches : Update(f)) \/ Reopen
 Spec == Init /\ [][Next]_vars
+
+\* The same behaviours plus duplicate-key batches, WEIGHTED for TLC's simulator, which draws uniformly among the actions it
+\* obtains by splitting the next-state relation at disjunctions and constant-bounded quantifiers: a dummy quantifier over
+\* 1..n makes n copies of an action.  Without the weights one Reopen / one empty batch stand against thousands of batches
+\* (one Reopen in ~3 700 steps): the steps that leave the map unchanged but exercise other code (reopen THEN continue, empty
+\* batch on a populated trie, duplicate keys) would practically never be generated.
+WPlain == 2
+WReopen == 1500
+WEmpty == 700
+SmallBatches == {f \in Batches : Cardinality(DOMAIN f) \in 1..2}
+NextW ==
+  \/ \E c \in 1..WPlain : \E f \in Batches : Update(f)
+  \/ \E c \in 1..WReopen : Reopen
+  \/ \E c \in 1..WEmpty : Update(EmptyBatch)
+  \/ \E f \in SmallBatches : \E i \in DOMAIN f : DupUpdate(f, i, (f[i] + 1) % (NV + 1))
+SpecW == Init /\ [][NextW]_vars
 
 (* ------------------------------ properties ------------------------------ *)
 EmptyIsEmpty == (Present(m) = {}) => Tree(m) = [t |-> "E"]
@@ -88,6 +123,12 @@ QueriesAgree ==
      ELSE a.kind = "E" \/ a.wk # KeyTab[i]
 \* a leaf sits at the highest position: its deepest sibling is never empty (unless it is the root)
 LeafLifted == \A i \in KIdx : LET a == Query(m, i) IN Len(a.bits) > 0 => a.bits[Len(a.bits)] = 1
+
+\* a reopen and an empty batch leave the root as it was
+StutterKeepsRoot ==
+  \A n \in 2..Len(trace) : (trace[n].op = "reopen" \/ trace[n].kv = <<>>) => trace[n].root = trace[n - 1].root
+\* the two branches of a duplicate-key batch are different maps: the step really is a choice
+DupIsAChoice == \A n \in 1..Len(trace) : trace[n].op = "dup" => trace[n].alt # trace[n].root
 
 DumpInv ==
   (DumpEvery > 0 /\ Len(trace) = Depth /\ RandomElement(1..DumpEvery) = 1)
